@@ -107,7 +107,7 @@ Ltac b2p := repeat match goal with
 
 Ltac ds s := destruct s as [total0 pending0 connected0 will_close0 cwf0 nreq0 olock0 ocount0 rlock0 pulled0 in_map0 sock_closed0 closed_bufs0 reading0 gone0 pending_in0 io0 wk0 wq0 wclose0 cur0 queued0 tlc0 trel0 tailsA0 tailsB0 appended0 wire0 last_write0].
 
-Ltac unf := unfold hand_over, enter_flush, w_flush_done, fb_loop, fb_exit, goto_append, next_write, end_service, enter_io_flush, io_flush_done, enter_hc, to_top, wake_w, acq, rel, send_ok, rdy_r, rdy_w in *.
+Ltac unf := unfold enter_fb, hand_over, enter_flush, w_flush_done, fb_loop, fb_exit, goto_append, next_write, end_service, enter_io_flush, io_flush_done, enter_hc, to_top, wake_w, acq, rel, send_ok, rdy_r, rdy_w in *.
 
 Lemma L0_init : L0 init.
 Proof. unfold L0, init; cbn; repeat split; reflexivity. Qed.
